@@ -591,7 +591,7 @@ class QMI_SerialTransport(QMI_Transport):
 def _is_valid_hostname(hostname: str) -> bool:
     """Return True if the specified host name has valid syntax."""
     # source: https://stackoverflow.com/questions/2532053/validate-a-hostname-string
-    if len(hostname) > 255:
+    if len(hostname) < 1 or len(hostname) > 255:
         return False
     if hostname[-1] == ".":
         hostname = hostname[:-1]  # strip exactly one dot from the right, if present
